@@ -157,6 +157,15 @@ def check_case(ctx, case):
             if got.shape != want_mag.shape or not numpy.array_equal(got, want_mag):
                 kind = "magnitude_counts_counted_below_minimum_event" if below and (got.shape == want_mag.shape and got.sum() > want_mag.sum()) else "magnitude_counts_wrong"
                 ctx.violation(kind, {"got": got.tolist(), "want": want_mag.tolist(), "below": below})
+            ob = call(lambda: cat().magnitude_counts(retbins=True, **kw))
+            if not ob.ok:
+                ctx.unexpected(ob, "magnitude_counts_retbins")
+            else:
+                rb = ctx.normalize("magnitude_counts_retbins", lambda: ([float(x) for x in ob.value[0]], numpy.asarray(ob.value[1], dtype=float)))
+                if rb is not None and (rb[0] != [float(e) for e in edges] or rb[1].shape != want_mag.shape or not numpy.array_equal(rb[1], want_mag)):
+                    ctx.violation("magnitude_counts_retbins_differs", {"bins": rb[0][:6], "counts": rb[1].tolist()[:8], "want": want_mag.tolist()[:8]})
+            if got.shape != want_mag.shape or not numpy.array_equal(got, want_mag):
+                pass
             elif not outside and not below and o.ok:
                 # marginal identity on the library's own arrays
                 o2 = call(lambda: cat().spatial_magnitude_counts(**kw))
